@@ -110,6 +110,8 @@ WATCHDOGS = [0]  # engine runs that hit the watchdog in this worker; exploration
 
 def work(task):
     global DEVICE
+    if task[0] == 'catalog':
+        return work_catalog(task)
     from fjv.enginecheck import answer_scripts, features, HORIZON
     from fjv.engines import make_device_class
     from fjv.ref import machine as R1
@@ -152,6 +154,80 @@ def work(task):
             if sample is None and len(r.trace) >= (3 if len(pos) > 2 else 1):
                 sample = {'image': image.to_json(), 'answers': answers, 'ref_trace': r.steps, 'cause': r.cause}
     return stats, hist, sieve.result(), sample
+
+
+def catalog_rows():
+    """the repository's own 'fast' test table: (name, [fj paths], w, use_stl, input bytes, expected output bytes)"""
+    from fjv import REPO
+    comp = {}
+    for line in (REPO / 'tests' / 'tests_tables' / 'test_compile_fast.csv').read_text().splitlines():
+        f = [x.strip() for x in line.split(',')]
+        if len(f) >= 8:
+            comp[f[0]] = ([REPO / p.strip() for p in f[1].split('|')], int(f[3]), f[6] == 'True')
+    rows = []
+    for line in (REPO / 'tests' / 'tests_tables' / 'test_run_fast.csv').read_text().splitlines():
+        f = [x.strip() for x in line.split(',')]
+        if len(f) >= 6 and f[0] in comp:
+            inp = (REPO / f[2]).read_bytes() if f[2] else b''
+            out = (REPO / f[3]).read_bytes() if f[3] else b''
+            if f[2] and f[4] != 'True':
+                inp = inp.replace(b'\r\n', b'\n')
+            if f[3] and f[5] != 'True':
+                out = out.replace(b'\r\n', b'\n')
+            rows.append((f[0],) + comp[f[0]] + (inp, out))
+    return rows
+
+
+def work_catalog(task):
+    """real assembled programs (the repository's fast test table) on every engine vs R1 and the expected output"""
+    global DEVICE
+    from fjv.asm import assemble_files, load_image
+    from fjv.enginecheck import scratch, compare
+    from fjv.engines import make_device_class, run_engine
+    from fjv.ref import machine as R1
+    if DEVICE is None:
+        DEVICE = make_device_class()
+    _, tier, idx, wsel = task
+    name, paths, w0, use_stl, inp, exp_out = catalog_rows()[idx]
+    w = wsel or w0
+    stats = {'images': 1, 'cases': 0, 'engine_runs': 0, 'skipped_horizon': 0, 'capped_reads': 0, 'nontrivial': 0}
+    sieve = Sieve(PROP, MATCHERS)
+    out = scratch() / f'cat-{idx}-{w}.fjm'
+    try:
+        assemble_files(paths, out, w=w, version=1, use_stl=use_stl, werror=False)
+    except Exception as e:  # noqa (not every program fits every width)
+        stats['catalog_not_assemblable'] = 1
+        return stats, {}, sieve.result(), None
+    image = load_image(out)
+    answers = [(b >> i) & 1 for b in inp for i in range(8)] + ['E'] * 4
+    horizon = 3000000 if tier == 'thorough' else 600000
+    r = R1.run(image, answers, horizon)
+    if r.cause in (R1.HORIZON, R1.NEED_INPUT):
+        stats['skipped_horizon'] = 1
+        return stats, {}, sieve.result(), None
+    stats['cases'] = 1
+    stats['nontrivial'] = 1
+    bits = [b for k, b in r.io if k == 'w']
+    got_out = bytes(sum(bits[8 * k + i] << i for i in range(8)) for k in range(len(bits) // 8))
+    if w == w0 and got_out != exp_out:
+        sieve.add({'kind': 'reference machine output differs from the expected output file', 'case': {'program': name, 'w': w},
+                   'expected': exp_out[:200].decode('latin1'), 'observed': got_out[:200].decode('latin1'), 'ref': {'trace': []},
+                   'summary': f'{name} w={w}: R1 output differs from tests/inout (R1 or the assembler is wrong)'})
+    probe = sorted(r.mem)[::max(1, len(r.mem) // 400)]
+    for engine, ring, kw, env in (('featured', 12, {}, {}), ('fast', None, {}, {}), ('fast', 5, {}, {}), ('native', None, {}, {}), ('native', 12, {}, {}),
+                                  ('native-paged', None, {}, {}), ('native-paged', 3, {}, {}), ('native', None, {'flat_max_words': 300}, {}),
+                                  ('native', 7, {'flat_max_words': 1001}, {}), ('native-measure', None, {}, {})):
+        dev = DEVICE(answers)
+        o = run_engine(out, engine, dev, ring=ring, extra_kwargs=kw, extra_env=env, timeout=120.0, probe=probe)
+        stats['engine_runs'] += 1
+        diffs = compare(r, o, ring, w)
+        if diffs:
+            sieve.add({'kind': 'engine-vs-machine (assembled program)', 'case': {'program': name, 'w': w, 'engine': engine, 'ring': ring, 'kwargs': kw,
+                                                                                  'image': {'w': w}, 'answers': 'bits of the test input + EOF'},
+                       'expected': {d[0]: (d[1] if d[0] != 'io_calls' else f'{len(d[1])} calls') for d in diffs},
+                       'observed': {d[0]: (d[2] if d[0] != 'io_calls' else f'{len(d[2])} calls') for d in diffs}, 'ref': {'trace': r.trace[-5:]},
+                       'summary': f'{name} w={w} engine={engine} ring={ring} {kw}: differs from the machine in {[d[0] for d in diffs]}'})
+    return stats, {'catalog_program': 1, 'catalog_ops': r.ops}, sieve.result(), {'catalog_program': name, 'w': w, 'ops': r.ops, 'cause': r.cause}
 
 
 def known_w64_top(record, sig):
@@ -198,6 +274,10 @@ def main():
         return replay(args)
     run = Run(PROP, 'exploration', args, MATCHERS)
     tasks = make_tasks(args.tier, args.only)
+    if not args.only or args.only == 'catalog':
+        n = len(catalog_rows())
+        tasks = [('catalog', args.tier, i, None) for i in range(n)] + ([('catalog', args.tier, i, 32) for i in range(n)] if args.tier == 'thorough' else []) + \
+            (tasks if not args.only else [])
     total = {}
     hist = {}
     samples = []
@@ -229,6 +309,8 @@ def main():
         'skipped_beyond_horizon': total.get('skipped_horizon', 0),
         'capped_more_reads_than_bound': total.get('capped_reads', 0),
         'behaviour_histogram': hist,
+        'assembled_catalog_programs_compared': hist.get('catalog_program', 0),
+        'assembled_catalog_ops_executed_by_R1': hist.get('catalog_ops', 0),
         'bounds': {'widths': list(WIDTHS), 'horizon_ops': 64, 'max_reads': 3 if args.tier == 'thorough' else 2,
                    'layouts': sorted(set(k.split('-')[0] + ('-' + k.split('-')[1] if k.startswith('two') else '') for k in layouts(8, args.tier)))},
         'exhaustive': not missing,
@@ -237,7 +319,7 @@ def main():
     code = run.finish(cov, assumptions=[
         'R1 (fjv/ref/machine.py) is the machine definition; it is cross-checked by all three engines on every case',
         'images are hand-packed version-0 .fjm files loaded through the real Reader',
-        'programs longer than 6 words / 64 ops are outside the bound'])
+        'enumerated images are at most 6 words / 64 ops; longer behaviour is covered only by the 33 assembled programs of the repository\'s fast test table (each on 10 engine/storage/ring configurations vs R1 and the expected output file)'])
     return 2 if missing and not code else code
 
 
